@@ -79,7 +79,19 @@ static int ctx_index(void *p)
 	if (a < b || (a - b) % ctx_stride || (a - b) / ctx_stride >= K) return -1;
 	return (int)((a - b) / ctx_stride);
 }
-static const uint8_t *buf_for(int ci, uint64_t bytes) { return s_pool.ro + ((ci * 1021 + bytes * 7) & 0xfff); }
+static vk_slot s_cbuf[MAXK];     /* guard mode: one guarded input slot per context */
+static int guard_flip;
+static const uint8_t *buf_for_len(int ci, uint64_t bytes, uint32_t len)
+{
+	const uint8_t *src = s_pool.ro + ((ci * 1021 + bytes * 7) & 0xfff);
+	if (!guard_mode) return src;
+	/* a context has at most one segment in flight, so its slot is free when it may submit again;
+	 * end-flush and start-flush placements alternate */
+	vk_slot *sl = &s_cbuf[ci];
+	size_t off = vk_place(sl, len, (guard_flip++ & 1) ? VK_START : VK_END, 1, 0);
+	memcpy(sl->rw + off, src, len);
+	return sl->ro + off;
+}
 
 static int digest_matches(const uint8_t *c, const uint8_t *std)
 {
@@ -187,6 +199,8 @@ static void fresh_system(void)
 
 /* ---------- one transition with all oracles; returns 0 ok, 1 stop this branch ---------- */
 static uint8_t *pre_img;
+static const uint8_t *last_buf;
+static void *last_r;
 static int apply(const sym *s)
 {
 	void *r;
@@ -204,12 +218,14 @@ static int apply(const sym *s)
 	} else {
 		uint8_t *c = CTX(s->ctx);
 		struct mctx *mc = &M.c[s->ctx];
-		const uint8_t *buf = buf_for(s->ctx, mc->bytes);
+		const uint8_t *buf = buf_for_len(s->ctx, mc->bytes, s->len);
+		last_buf = buf;
 		r = do_submit(c, buf, s->len, s->flags);
 		if (faulted) return 1;
 		if (s->kind == 2) {
 			/* rejection: handed straight back, matching code, nothing else changed */
 			vk_stat("rejections_injected", 1);
+			last_r = r;
 			if (r != c) { viol("C11", "reject_wrong_return", "rejected submit returned %p instead of the submitted context", r); return 1; }
 			if (FIELD(c, A->o_error, int32_t) != s->expect_err) { viol("C11", "reject_wrong_code", "rejected submit set error %d, expected %d", FIELD(c, A->o_error, int32_t), s->expect_err); return 1; }
 			if (public_entry) {
@@ -238,6 +254,7 @@ static int apply(const sym *s)
 			return 1;
 		}
 	}
+	last_r = r;
 	/* the returned context */
 	if (r) {
 		int ri = ctx_index(r);
@@ -371,13 +388,40 @@ static uint64_t state_hash(int pol)
 }
 
 /* ---------- the search ---------- */
-struct frame { uint8_t *img; struct model m; int tl; };
+struct frame { uint8_t *img, *imgB; struct model m; int tl; };
 static struct frame *frames; static int maxdepth = 400;
 static uint64_t abs_states;
 static int use_visited = 1;
 static int only_valid_deviations;
 
-/* paired environment (C20): second image explored in lock step */
+/* paired environment (C20): a second image, created under a different hidden-input environment, is driven in
+ * lock step through the same transitions; it makes no pruning decisions of its own; only what the API defines
+ * is compared (returned context, status, error, total length, digest when complete, user data) */
+static uint8_t *curB, *tmpA;
+static int pair_step(const sym *s)
+{
+	void *rA = last_r, *rB;
+	uint64_t save_poison = vk_call_poison;
+	memcpy(tmpA, s_arena.rw + arena_off, arena_size);
+	memcpy(s_arena.rw + arena_off, curB, arena_size);
+	vk_call_poison = 0xfedcba9876543210ULL;
+	if (s->kind == 0) rB = do_flush(); else rB = do_submit(CTX(s->ctx), last_buf, s->len, s->flags);
+	vk_call_poison = save_poison;
+	vk_stat("pairs", 1);
+	int bad = 0;
+	if (faulted) bad = 1;
+	else if (rA != rB) { viol("C20", "pair_returned_context", "under a different hidden-input environment the call returned c%d instead of c%d", rB ? ctx_index(rB) : -1, rA ? ctx_index(rA) : -1); bad = 1; }
+	else for (unsigned i = 0; i < K && !bad; i++) {
+		uint8_t *b = CTX(i), *a = tmpA + (b - (s_arena.rw + arena_off));
+		if (FIELD(a, A->o_status, uint32_t) != FIELD(b, A->o_status, uint32_t) || FIELD(a, A->o_error, int32_t) != FIELD(b, A->o_error, int32_t) ||
+		    (M.c[i].st != M_FRESH && FIELD(a, A->o_total, uint64_t) != FIELD(b, A->o_total, uint64_t)) || FIELD(a, A->o_user, void *) != FIELD(b, A->o_user, void *)) {
+			viol("C20", "pair_context_fields", "API-defined fields of c%u (status/error/total_length/user_data) depend on hidden inputs", i); bad = 1;
+		} else if (M.c[i].st == M_COMPLETE && memcmp(a + A->o_digest, b + A->o_digest, A->dwords * A->wsize)) { viol("C20", "pair_digest", "digest of c%u depends on hidden inputs", i); bad = 1; }
+	}
+	memcpy(curB, s_arena.rw + arena_off, arena_size);
+	memcpy(s_arena.rw + arena_off, tmpA, arena_size);
+	return bad;
+}
 static void explore(int pol, int depth, int budget)
 {
 	struct frame *fr = &frames[depth];
@@ -386,6 +430,7 @@ static void explore(int pol, int depth, int budget)
 	if (depth >= maxdepth - 1) { vk_stat("depth_cap_hits", 1); return; }
 	if (vk_deadline_hit()) { vk_stat("deadline_cut_branches", 1); return; }
 	memcpy(fr->img, s_arena.rw + arena_off, arena_size); fr->m = M; fr->tl = tracelen;
+	if (pair_mode) memcpy(fr->imgB, curB, arena_size);
 	have_pol = policy_next(pol, &pn);
 	int n = budget > 0 ? enum_symbols(syms) : 0;
 	for (int i = -1; i < n; i++) {
@@ -398,8 +443,10 @@ static void explore(int pol, int depth, int budget)
 			if (only_valid_deviations && s->kind == 2) continue;
 			nb = budget - 1;
 		}
-		if (i >= 0 || 1) { memcpy(s_arena.rw + arena_off, fr->img, arena_size); M = fr->m; tracelen = fr->tl; }
+		memcpy(s_arena.rw + arena_off, fr->img, arena_size); M = fr->m; tracelen = fr->tl;
+		if (pair_mode) memcpy(curB, fr->imgB, arena_size);
 		if (apply(s)) continue;
+		if (pair_mode && pair_step(s)) continue;
 		vk_stat_max("max_depth", depth + 1);
 		uint64_t h = state_hash(pol);
 		if (use_visited) { if (vt_check_insert(h, nb)) { vk_stat("revisits_pruned", 1); continue; } }
@@ -412,6 +459,7 @@ static void explore(int pol, int depth, int budget)
 		explore(pol, depth + 1, nb);
 	}
 	memcpy(s_arena.rw + arena_off, fr->img, arena_size); M = fr->m; tracelen = fr->tl;
+	if (pair_mode) memcpy(curB, fr->imgB, arena_size);
 }
 
 /* ---------- instance set-up ---------- */
@@ -475,7 +523,8 @@ static void run_explore(void)
 		if (vk_only && strcmp(vk_only, nm) && strcmp(vk_only, algs[fams[fi].alg].name)) continue;
 		if (item++ % vk_nshards != vk_shard) continue;
 		if (!setup_instance(&fams[fi])) continue;
-		for (int d = 0; d < maxdepth; d++) { free(frames[d].img); frames[d].img = malloc(arena_size); }
+		for (int d = 0; d < maxdepth; d++) { free(frames[d].img); frames[d].img = malloc(arena_size); if (pair_mode) { free(frames[d].imgB); frames[d].imgB = malloc(arena_size); } }
+		if (pair_mode) { free(curB); free(tmpA); curB = malloc(arena_size); tmpA = malloc(arena_size); }
 		free(pre_img); pre_img = malloc(arena_size);
 		int dmax = L <= 4 ? d4 : L <= 8 ? d8 : d16;
 		if (public_entry && dmax > 1) dmax = 1;
@@ -483,6 +532,7 @@ static void run_explore(void)
 			/* iterate the bound: 0, 1, 2 ... ; each bound re-explores from scratch with a fresh table */
 			memset(vt_key, 0, vt_cap * 8); memset(vt_bud, 0, vt_cap); vt_n = 0;
 			use_visited = d <= 2;
+			if (pair_mode) { env_prefill = 0x00; vk_call_poison = 0xfedcba9876543210ULL; fresh_system(); memcpy(curB, s_arena.rw + arena_off, arena_size); env_prefill = 0xd7; vk_call_poison = 0x1111111111111111ULL; }
 			fresh_system();
 			if (faulted) break;
 			double t0 = vk_now();
@@ -609,11 +659,13 @@ int main(int argc, char **argv)
 	if (vk_opt("validonly", &v)) only_valid_deviations = 1;
 	pair_mode = !strcmp(prop, "C20"); guard_mode = !strcmp(prop, "C08");
 	if (!strcmp(prop, "C19")) vk_call_mode = VC_POISON_REGS;
+	if (pair_mode) vk_call_mode = VC_POISON_REGS | VC_STACK;
 	if (ref_run_kats(0)) { fprintf(stderr, "reference KATs failed\n"); return 2; }
 	vk_slot_init(&s_arena, "arena", 1 << 16, 0);
 	vk_slot_init(&s_pool, "pool", POOLSZ, 1);
 	vk_slot_init(&s_outp, "ctx_out", 4096, 0);
 	vk_fill(s_pool.rw, s_pool.size, 0xb00c);
+	if (guard_mode) for (int i = 0; i < MAXK; i++) { static char nm[MAXK][12]; snprintf(nm[i], sizeof nm[i], "data_c%d", i); vk_slot_init(&s_cbuf[i], nm[i], 1 << 16, 1); }
 	if (!strcmp(mode, "explore")) run_explore();
 	else if (!strcmp(mode, "seg")) run_seg();
 	else if (!strcmp(mode, "len")) run_len();
